@@ -292,7 +292,12 @@ def inline_option_maps(facts, t):
                     m[('upvar', k)] = v
                 return subst(interp(facts, cb).ret, m)
         return x
-    return rebuild(t, f)
+    for _ in range(4):   # a spliced body may itself contain a map (a helper returning `first().map(..)`)
+        t2 = rebuild(t, f)
+        if t2 == t:
+            break
+        t = t2
+    return t
 
 
 def _strip_conv(t):
@@ -571,7 +576,7 @@ READ_WHY = 'the property is stated over what replicas read: a read that hides, a
            'on every history that reaches such a state'
 _TYPE_MODULE = {'Orswot': 'orswot', 'Map': 'map', 'MVReg': 'mvreg', 'VClock': 'vclock', 'GCounter': 'gcounter', 'PNCounter': 'pncounter',
                 'MaxReg': 'maxreg', 'MinReg': 'minreg', 'GSet': 'gset', 'LWWReg': 'lwwreg', 'List': 'list', 'GList': 'glist',
-                'MerkleReg': 'merkle_reg'}
+                'MerkleReg': 'merkle_reg', 'Content': 'merkle_reg'}
 
 
 def read_attribution(own, module=None, default=None, own_filter=None):
@@ -594,3 +599,16 @@ def read_attribution(own, module=None, default=None, own_filter=None):
             continue
         filt[p_] = (lambda i, p_=p_: i in ('floor', 'anchor', 'internal') or p_ in READ_OBSERVES.get(mod_of(i), []))
     return {'props': props, 'inst_filter': filt}
+
+
+def strip_lossless(t):
+    """Peel `T::from(x)` / `x.into()` of NON-crate impls off a term: std (and num) `From` conversions between numeric types are
+    value-preserving by contract; the crate's own From impls (Dot -> VClock, ..) are left alone."""
+    from ..terms import drop_lv
+    t = drop_lv(t)
+    while t[0] == 'call' and len(t[2]) == 1:
+        info = cinfo(t[1])
+        if info['local'] or info['name'] not in ('from', 'into') or not (info['trait'] or '').endswith(('convert::From', 'convert::Into')):
+            break
+        t = drop_lv(t[2][0])
+    return t
